@@ -147,18 +147,22 @@ Proof.
   - exact (meets_inputs_not_overwritten fixed opt st st' oc r own H D).
 Qed.
 
-(* the repaired step: a build that has errors when the write phase starts
-   changes neither the disk nor the hash table *)
+(* the current step (after d19e8cb): a build that has errors when the write
+   phase starts changes neither the disk nor the hash table *)
 Lemma fixed_failed_step_is_identity phys opt st oc st' r :
-  step_fixed phys opt st oc = (st', r) -> r_failed_early r = true -> st' = st /\ r_effects r = [].
+  step phys opt st oc = (st', r) -> r_failed_early r = true -> st' = st /\ r_effects r = [].
 Proof.
-  unfold step_fixed. rewrite step_gen_unfold. destruct (results_of opt oc) as [results err1]. cbv zeta.
+  unfold step. rewrite step_gen_unfold. destruct (results_of opt oc) as [results err1]. cbv zeta.
   intros E H. injection E as E1 E2. subst st' r. cbn [r_failed_early r_effects] in *. subst err1.
   cbn [andb]. destruct (write opt && negb (to_stdout opt)); destruct st; split; reflexivity.
 Qed.
 
+Lemma failed_step_keeps_files phys opt st oc st' r q :
+  step phys opt st oc = (st', r) -> r_failed_early r = true -> lookup (disk st') q = lookup (disk st) q.
+Proof. intros E H. destruct (fixed_failed_step_is_identity _ _ _ _ _ _ E H) as [E1 _]. rewrite E1. reflexivity. Qed.
+
 Lemma fixed_meets_failed_unchanged opt st st' oc r own :
-  step_fixed phys_id opt st oc = (st', r) -> to_stdout opt = false ->
+  step phys_id opt st oc = (st', r) -> to_stdout opt = false ->
   spec_failed_unchanged (obs_of opt st st' oc r own).
 Proof.
   intros E HS HH p. unfold obs_of in *. cbn [ob_after ob_before ob_failed ob_write] in *.
@@ -181,6 +185,7 @@ Definition w_oc2 := mkOutcome false [P "/src/a.js"; P "/src/old.js"; P "/out/old
 Definition w_oc2' := mkOutcome false [P "/src/a.js"; P "/out/old.js"] false
   [mkOut (P "/out/a.js") [13] 113 false] false false false.
 
+(* before d19e8cb *)
 Lemma witness_failed_rebuild_deletes (fixed := false) :
   let st1 := fst (step_gen phys_id fixed w_opts (init w_disk0) w_oc1) in
   let '(st2, r2) := step_gen phys_id fixed w_opts st1 w_oc2 in
